@@ -262,8 +262,16 @@ def coverLoop (traps : Array Trap) (bepos lowD highD : Int) : Nat → Nat → Ar
           let cov := if coverageA * coverageB * 100 > 99 * (trapA * trapB) then cov.setIfInBounds idx true else cov
           coverLoop traps bepos lowD highD n (idx + 1) cov
 
-/-- `alignRecursion(t)`; `num/den = 1 - minId`; `fuel` bounds the recursion depth -/
-def alignRecursion (c : Costs) (s : Seqs) (traps : Array Trap) (slot : Nat) (minLen num den : Int) :
+/-- `alignRecursion(t)`; `num/den = 1 - minId`; `fuel` bounds the recursion depth.
+
+    `split = false` is the recursion of the source: after the alignment through the middle row it
+    recurses into the rows below and above the alignment, over the whole width of the trapezoid.
+    `split = true` is the recursion the source does *not* have (finding K6; the candidate repair in
+    `notes/C15.md`): it also recurses into the diagonals to the left and to the right of the band
+    `[maxLeft, maxRight]` the reverse trace kept, over the rows the two row-wise recursions leave
+    out.  The driver compares `split = false` with the implementation and uses `split = true` only
+    in the recogniser of K6; the soundness theorems hold for both. -/
+def alignRecursion (c : Costs) (s : Seqs) (traps : Array Trap) (slot : Nat) (minLen num den : Int) (split : Bool) :
     Nat → Trap → AState → AState
   | 0, _, st => st
   | fuel + 1, t, st =>
@@ -284,14 +292,36 @@ def alignRecursion (c : Costs) (s : Seqs) (traps : Array Trap) (slot : Nat) (min
       else st
     let st :=
       if lowTop - t.bottom > minLen && lowTop < t.top - c.maxIGap then
-        alignRecursion c s traps slot minLen num den fuel { t with top := lowTop } st
+        alignRecursion c s traps slot minLen num den split fuel { t with top := lowTop } st
       else st
-    if t.top - highBottom > minLen then
-      alignRecursion c s traps slot minLen num den fuel { t with bottom := highBottom } st
+    let st :=
+      if t.top - highBottom > minLen then
+        alignRecursion c s traps slot minLen num den split fuel { t with bottom := highBottom } st
+      else st
+    if split then
+      let sideBottom := if lowTop > t.bottom then lowTop else t.bottom
+      let sideTop := if highBottom < t.top then highBottom else t.top
+      let leftRight := highEnd.maxLeft - 1
+      let rightLeft := highEnd.maxRight + 1
+      let st :=
+        if sideTop - sideBottom > minLen && t.left ≤ leftRight && leftRight < t.right then
+          alignRecursion c s traps slot minLen num den split fuel
+            { t with bottom := sideBottom, top := sideTop, right := leftRight } st
+        else st
+      if sideTop - sideBottom > minLen && rightLeft ≤ t.right && t.left < rightLeft then
+        alignRecursion c s traps slot minLen num den split fuel
+          { t with bottom := sideBottom, top := sideTop, left := rightLeft } st
+      else st
     else st
 
+/-- recursion fuel for one trapezoid: every level removes at least one row (row-wise calls) or at
+    least one diagonal (the calls of `split = true`) -/
+def recursionFuel (s : Seqs) (split : Bool) (t : Trap) : Nat :=
+  s.query.size + 2 + (if split then (t.right - t.left + 1).toNat else 0)
+
 /-- the loop of `AlignTraps` over the trapezoids: the hits in emission order -/
-def alignLoop (c : Costs) (s : Seqs) (traps : Array Trap) (k minLen num den : Int) : Nat → Nat → AState → AState
+def alignLoop (c : Costs) (s : Seqs) (traps : Array Trap) (k minLen num den : Int) (split : Bool) :
+    Nat → Nat → AState → AState
   | 0, _, st => st
   | n + 1, i, st =>
     match traps[i]? with
@@ -299,12 +329,17 @@ def alignLoop (c : Costs) (s : Seqs) (traps : Array Trap) (k minLen num den : In
     | some t =>
       let st :=
         if !(st.covered.getD i false) && t.top - t.bottom ≥ k then
-          alignRecursion c s traps i minLen num den (s.query.size + 2) t st
+          alignRecursion c s traps i minLen num den split (recursionFuel s split t) t st
         else st
-      alignLoop c s traps k minLen num den n (i + 1) st
+      alignLoop c s traps k minLen num den split n (i + 1) st
 
-def emitted (c : Costs) (s : Seqs) (traps : List Trap) (k minLen num den : Int) : List KHit :=
+/-- the hits in emission order, for either recursion -/
+def emittedWith (split : Bool) (c : Costs) (s : Seqs) (traps : List Trap) (k minLen num den : Int) : List KHit :=
   let ta := traps.toArray
-  (alignLoop c s ta k minLen num den ta.size 0 { covered := Array.replicate ta.size false, hits := #[] }).hits.toList
+  (alignLoop c s ta k minLen num den split ta.size 0 { covered := Array.replicate ta.size false, hits := #[] }).hits.toList
+
+/-- the hits `AlignTraps` collects from the result channel (the recursion of the source) -/
+def emitted (c : Costs) (s : Seqs) (traps : List Trap) (k minLen num den : Int) : List KHit :=
+  emittedWith false c s traps k minLen num den
 
 end Biogo.PalsKernel
